@@ -63,6 +63,7 @@ def run(chk, st, tier):
                             "(magic, footer length, thrift footer, schema tree vs column chunks, offsets, sizes, value/row counts, level sections, page boundaries, records per page <= page size). "
                             "distinct = distinct (shape,codec,page size,history with values); non-trivial = at least one record.")
     chk.coverage["explanation"] = "check_file is the executable definition of validity; see coq/props/C02.v for what is proved about the writer model against it."
+    chk.assumptions += ['codec contract decompress(compress x)=Some x as premise of the theorems; the validator is bound to the real snappy/gzip decoders through work/bin/codec', 'check_file is the definition of validity for this development: hand-written from the Parquet format documents']
 
 
 def replay(chk, st, data):
